@@ -10,6 +10,11 @@ C03.cap     wire/slice validators cap names at 255 and labels at 63:
 C03.forge   unchecked-constructor audit: every call of an `unsafe fn` that
             returns a validated name type is validator-dominated, a re-wrap of
             an already validated value, inside another unsafe fn, or audited.
+C03.raw     the validated name types are *built* (struct literal, transmute)
+            only inside an `unsafe fn`, from a value that is already of a
+            validated type, from a constant, or behind a validator call --
+            derive-generated constructors (Clone, Arbitrary, Deserialize...)
+            included: no safe function makes one from unchecked octets.
 C03.endl    NameBuilder methods that end the label under construction call
             end_label while `head` still names it (never after taking/clearing
             `self.head`): otherwise the label's length octet stays 0.
@@ -51,6 +56,7 @@ def run(ctx):
     rule_forge(ctx, F)
     rule_esc(ctx, F)
     rule_endl(ctx, F)
+    rule_raw(ctx, F)
     rule_flag(ctx, F)
     rule_bounds(ctx, F)
     import c06
@@ -657,6 +663,56 @@ def rule_forge(ctx, F):
                    b.where(bb))
     ctx.call_sites += n
     ctx.extra.setdefault("coverage", {})["forge_classes"] = counts
+
+
+RAW_AUDIT = [
+    (r"^base::name::label::OwnedLabel::from_chars$", "appends at most 63 checked octets into a zeroed [u8; 64] (C06.label scope: LongLabel guard before every store)"),
+    (r"^base::name::label::OwnedLabel::from_label$", "copies the octets of a &Label (validated) into the array"),
+    (r"^base::charstr::CharStr::<Octs>::empty$", "constant empty string"),
+    (r"^base::name::uncertain::UncertainName::<Octets>::(empty|root)$", "constant names"),
+]
+
+
+def rule_raw(ctx, F):
+    R = "C03.raw"
+    ctx.floor(R, 15)
+    n = 0
+    for p, b in sorted(F.bodies.items()):
+        if "::test" in p or p.startswith(("new::", "<new::")):
+            continue
+        fn = F.fns.get(b.root or p) or F.fns.get(p)
+        k = 0
+        for bi in sorted(b.reachable_blocks()):
+            for st in b.blocks[bi]["s"]:
+                if st[0] != "=":
+                    continue
+                rv = st[2]
+                if not (rv[0] == "agg" and rv[1][0] == "adt" and rv[1][1] in VALIDATED):
+                    continue
+                n += 1
+                k += 1
+                ty = rv[1][1].split("::")[-1]
+                site = "%s literal #%d" % (ty, k)
+                if fn is not None and fn["unsafe"]:
+                    ctx.ob(R, b, site, True, nontrivial=False, where=b.where(bi), detail="inside an unsafe fn (obligation on the caller: C03.forge)")
+                    continue
+                ops = [b.term_of_operand(o) for o in rv[2]]
+                if ops and all(_rooted_in_validated(b, o, F) or const_value(deep_strip(o)) is not None for o in ops):
+                    ctx.ob(R, b, site, True, where=b.where(bi), detail="built from an already validated value")
+                    continue
+                succ = succeeded_calls(b, bi, F)
+                if any(vt["fn"] and VALIDATORS.search(vt["fn"]) and vb in succ for vb, vt in b.calls()):
+                    ctx.ob(R, b, site, True, where=b.where(bi), detail="behind a checked validator call")
+                    continue
+                why = next((w for rx, w in RAW_AUDIT if re.search(rx, p)), None)
+                if why:
+                    ctx.ob(R, b, site, True, nontrivial=False, where=b.where(bi), detail="audited: " + why)
+                    continue
+                ctx.ob(R, b, site, False,
+                       "safe code builds a %s directly from %s: no validator, not derived from a validated value and not "
+                       "inside an unsafe fn -- a value of the type that breaks its invariants is obtainable through the "
+                       "safe API" % (ty, "; ".join(show(deep_strip(o))[:80] for o in ops) or "nothing"), b.where(bi))
+    ctx.call_sites += n
 
 
 def _validated_of(fn):
